@@ -29,7 +29,8 @@ fn cli_large_keyrings(ctx: &Ctx) {
     let wd = WorkDir::new("c17l");
     let alice = crate::cli::Ident::new("alice", "apw", &mut rng);
     let last = crate::cli::Ident::new("zz-last-entry", "zpw", &mut rng);
-    for (what, contacts) in [("about 80 KiB", 900usize), ("about 200 KiB", 2300)] {
+    let sizes: Vec<(&str, usize)> = ctx.tier.pick(vec![("about 80 KiB", 900usize), ("about 200 KiB", 2300), ("about 1.2 MiB", 13_500)], vec![("about 80 KiB", 900usize), ("about 200 KiB", 2300), ("about 1.2 MiB", 13_500), ("about 5 MiB", 56_000), ("about 17 MiB", 190_000)]);
+    for (what, contacts) in sizes {
         let mut text = alice.entry(true);
         for i in 0..contacts {
             text.push_str(&format!("\n[Key]\nName = contact-{:05}\nPublicKey = {}\n", i, refspec::encode_pk(&refspec::pubkey_of(&rng.arr32()))));
@@ -62,7 +63,120 @@ fn cli_large_keyrings(ctx: &Ctx) {
         } else {
             ctx.violation("C17:cli:accepted-a-keyring-that-must-be-rejected:duplicate name at the end of a large file", json!({"keyring_bytes": dup_text.len(), "exit": o.exit.describe(), "stderr": o.stderr_s()}));
         }
+        // the same two keyrings DELIVERED otherwise: through the path /dev/stdin (a pipe) and through a named pipe -
+        // sources whose length is not known in advance; the keyring is what arrives, all of it
+        for (delivery, text, must_work) in [("-k /dev/stdin", &ok_text, true), ("-k /dev/stdin", &dup_text, false), ("-k named pipe", &ok_text, true), ("-k named pipe", &dup_text, false)] {
+            let target = if must_work { last.name.as_str() } else { "contact-00001" };
+            let fifo = wd.file("kr.fifo");
+            let _ = std::fs::remove_file(&fifo);
+            let mut feeder: Option<std::thread::JoinHandle<()>> = None;
+            let o = if delivery == "-k /dev/stdin" {
+                Cmd::new(&wd.path, &["encrypt", "m.txt", "-t", target, "-f", "alice", "-k", "/dev/stdin", "--env-pass"]).pass("apw").stdin(Stdin::Bytes(text.clone().into_bytes())).run()
+            } else {
+                let c = std::ffi::CString::new(fifo.to_string_lossy().as_bytes()).unwrap();
+                if unsafe { libc::mkfifo(c.as_ptr(), 0o600) } != 0 {
+                    continue;
+                }
+                let (bytes, fp) = (text.clone().into_bytes(), fifo.clone());
+                feeder = Some(std::thread::spawn(move || {
+                    use std::io::Write;
+                    use std::os::unix::fs::OpenOptionsExt;
+                    use std::os::unix::io::AsRawFd;
+                    for _ in 0..600 {
+                        match std::fs::OpenOptions::new().write(true).custom_flags(libc::O_NONBLOCK).open(&fp) {
+                            Ok(mut h) => {
+                                unsafe {
+                                    let fl = libc::fcntl(h.as_raw_fd(), libc::F_GETFL);
+                                    libc::fcntl(h.as_raw_fd(), libc::F_SETFL, fl & !libc::O_NONBLOCK);
+                                }
+                                let _ = h.write_all(&bytes);
+                                return;
+                            }
+                            Err(_) => std::thread::sleep(std::time::Duration::from_millis(10)),
+                        }
+                    }
+                }));
+                Cmd::new(&wd.path, &["encrypt", "m.txt", "-t", target, "-f", "alice", "-k", "kr.fifo", "--env-pass"]).pass("apw").run()
+            };
+            if let Some(h) = feeder {
+                let _ = h.join();
+            }
+            ctx.eval();
+            let case = || json!({"delivery": delivery, "keyring_bytes": text.len(), "keyring": if must_work { "well-formed, the needed entry is the last one" } else { "duplicate name at the very end" }, "exit": o.exit.describe(), "stderr": o.stderr_s()});
+            if o.exit == Exit::Timeout {
+                ctx.inconclusive("C17 cli: timeout");
+            } else if must_work {
+                let good = o.exit == Exit::Code(0) && matches!(refspec::decode_key_file(&o.stdout, &last.sk, &last.pk), Ok(d) if d.body.complete() && d.sender == alice.pk);
+                if good {
+                    ctx.seen("cli: large keyring delivered through a pipe: the last entry is found and used");
+                    ctx.distinct(&format!("large|pipe-ok|{}|{}", what, delivery));
+                } else {
+                    ctx.violation("C17:cli:entry-at-the-end-of-a-large-keyring-not-usable:delivered-through-a-pipe", case());
+                }
+            } else if o.exit == Exit::Code(1) && o.has_error_line() {
+                ctx.seen("cli: large keyring delivered through a pipe: duplicate name at the end is refused");
+                ctx.distinct(&format!("large|pipe-dup|{}|{}", what, delivery));
+            } else {
+                ctx.violation("C17:cli:accepted-a-keyring-that-must-be-rejected:duplicate name at the end of a large keyring delivered through a pipe", case());
+            }
+        }
     }
+}
+
+/// Names at the 128-BYTE boundary (1..4-byte characters behind short ASCII prefixes) offered to `key generate -o F`
+/// on a keyring that already holds a key: either the name is refused and F is untouched, or F - as written by the
+/// tool - still parses, holds exactly the earlier entry plus the new name, and the earlier key still works.
+fn cli_boundary_names_through_generate(ctx: &Ctx) {
+    let mut rng = Rng::fork(ctx.seed, "C17-cli-boundary");
+    let wd = WorkDir::new("c17b");
+    let first = crate::cli::Ident::new("first", "fpw", &mut rng);
+    let names: Vec<String> = boundary_names().into_iter().filter(|n| n.len() >= 120 && n.len() <= 200).collect();
+    let step = ctx.tier.pick(4, 1);
+    let names: Vec<String> = names.into_iter().enumerate().filter(|(i, _)| (i + ctx.seed as usize) % step == 0).map(|(_, n)| n).collect();
+    let wdp = &wd;
+    let first = &first;
+    crate::util::par_for(names.len(), crate::util::ncpu(), |i| {
+        let name = &names[i];
+        let f = format!("ring-{}.txt", i);
+        let initial = first.entry(true);
+        wdp.write(&f, initial.as_bytes());
+        let o = Cmd::new(&wdp.path, &["key", "generate", "-o", &f, "--env-pass"]).pass("gpw").stdin(Stdin::Bytes(format!("{}\n", name).into_bytes())).run();
+        ctx.eval();
+        let after = std::fs::read(wdp.file(&f)).unwrap_or_default();
+        let case = |more: serde_json::Value| json!({"name_bytes": name.len(), "name_chars": name.chars().count(), "name": name, "generate_exit": o.exit.describe(), "generate_stderr": o.stderr_s(), "more": more});
+        match &o.exit {
+            Exit::Timeout => ctx.inconclusive("C17 cli: timeout"),
+            Exit::Code(1) if after == initial.as_bytes() => {
+                if name.len() <= 128 {
+                    ctx.violation("C17:cli:key-generate-refuses-a-name-the-format-can-hold", case(json!(null)));
+                } else {
+                    ctx.seen("cli: boundary name beyond 128 bytes refused by key generate, keyring untouched");
+                    ctx.distinct(&format!("bname|refused|{}", i));
+                }
+            }
+            Exit::Code(0) => {
+                // the file the tool wrote must parse (the tool itself is the judge: use the earlier key) and hold the two names
+                wdp.write(&format!("m{}.txt", i), b"x");
+                let e = Cmd::new(&wdp.path, &["encrypt", &format!("m{}.txt", i), "-t", name, "-f", "first", "-k", &f, "--env-pass"]).pass("fpw").run();
+                ctx.eval();
+                let text = String::from_utf8_lossy(&after).into_owned();
+                let secs = crate::c14::ref_parse(&text);
+                let new_pk = secs.iter().find(|s| s.0.as_deref() == Some(name.as_str())).and_then(|s| s.1.clone()).and_then(|p| refspec::decode_pk(&p));
+                let new_sk = secs.iter().find(|s| s.0.as_deref() == Some(name.as_str())).and_then(|s| s.2.clone()).and_then(|l| refspec::unlock_sk(&l, b"gpw").ok());
+                let good = e.exit == Exit::Code(0) && secs.len() == 2 && match (new_pk, new_sk) {
+                    (Some(pk), Some(sk)) => refspec::pubkey_of(&sk) == pk && refspec::decode_key_file(&e.stdout, &sk, &pk).map(|d| d.body.complete() && d.sender == first.pk).unwrap_or(false),
+                    _ => false,
+                };
+                if good {
+                    ctx.seen("cli: boundary name accepted by key generate parses back and selects its own key");
+                    ctx.distinct(&format!("bname|ok|{}", i));
+                } else {
+                    ctx.violation("C17:tool-written-keyring-does-not-parse-back-to-the-written-name:boundary-name", case(json!({"sections_in_file": secs.len(), "use_exit": e.exit.describe(), "use_stderr": e.stderr_s()})));
+                }
+            }
+            _ => ctx.violation("C17:cli:key-generate-abnormal-or-altered-the-keyring-while-refusing", case(json!({"file_len_after": after.len(), "file_len_before": initial.len()}))),
+        }
+    });
 }
 
 
@@ -351,10 +465,14 @@ fn cli_key_spellings(ctx: &Ctx) {
 
 pub fn cli_lanes(ctx: &Ctx) {
     cli_key_spellings(ctx);
+    cli_boundary_names_through_generate(ctx);
     cli_large_keyrings(ctx);
     cli_duplicates_and_names(ctx);
     cli_checksum_in_every_role(ctx);
     ctx.require("cli: entry with a non-matching checksum is unusable", 3);
+    ctx.require("cli: large keyring delivered through a pipe: the last entry is found and used", 4);
+    ctx.require("cli: large keyring delivered through a pipe: duplicate name at the end is refused", 4);
+    ctx.require("cli: boundary name", 20);
     ctx.require("cli: other spelling of a public key is not accepted as that key", 50);
     ctx.require("cli: keyring file written and extended by the tool holds exactly the entries written", 5);
     ctx.require("cli: keyring with a repeated name or key is refused", 3);
